@@ -17,14 +17,18 @@ THEOREMS = ['C10_rule_scan_exact', 'C10_rule_scan_none', 'C10_lex_maximal_munch'
             'C10_parse_complete', 'C10_parse_complete_fuel', 'C10_parse_spec', 'C10_parse_none_spec', 'C10_parse_unambiguous',
             'C10_front_rejects_non_sentences', 'C10_front_spec', 'C10_front_none_spec', 'C10_canonical_tree_exists', 'C10_parse_canonical_exact', 'C10_canonical_unique',
             'C10_term_fuel_monotone', 'C10_compile_whole_program', 'C10_front_compile_whole',
-            'C10_compile_front_rejects_non_sentences', 'C10_compile_front_whole']
+            'C10_compile_front_rejects_non_sentences', 'C10_compile_front_whole',
+            'C10_quoted_atom_opaque', 'C10_quoted_body_irrelevant']
 RULE = ('source texts: (a) sentences derived at random from the grammar prolog.g4 itself (every alternative, including '
         '=(a,b), unary operators, name/arity, numeral-named compounds, foo(), [a,|T], nested parentheses, directives), '
         '(b) programs printed from random ASTs, both rendered with random spacing, line breaks and % comments, and (c) every '
         'single-edit corruption class of such texts: token deletion / insertion / duplication / swap, truncation at token '
         'boundaries and inside tokens, character deletion / replacement, foreign characters (# " { NUL non-ASCII) outside and '
         'inside quotes, unterminated quoted atoms (at the end and at a clause boundary), trailing garbage after the last full '
-        'stop, garbage before the first clause, a comment without line break at the end, a missing final full stop. '
+        'stop, garbage before the first clause, a comment without line break at the end, a missing final full stop; '
+        '(d) quoted atoms that span lines, whose lines start with what means something outside an atom (% /* // # :- . , brackets, '
+        'quotes, clause text) and end with every kind of line end, comments that contain quotes, and the single edits placed directly '
+        'before / after a quoted atom, on its quotes, and at the line boundaries inside it. '
         'Non-trivial: a corruption of a text with >= 2 clauses, or an accepted text with >= 2 clauses. Distinct by hash of the text.')
 TRUSTED_BASE = [
     'Coq 8.16.1 kernel (coqc); vm_compute for the in-Coq evaluation of the model on every case',
@@ -73,7 +77,9 @@ def tokenize(text, keep_skipped=False):
 def _safe_adjacent(a, b):
     return tokenize(a + b) == [a, b]
 
-_SEPS = [' ', ' ', ' ', '  ', '\n', '\t', '\r\n', ' % a comment\n', '%\n', '\n% c, d. )\n  ', ' %% x \' y\r']
+_SEPS = [' ', ' ', ' ', '  ', '\n', '\t', '\r\n', ' % a comment\n', '%\n', '\n% c, d. )\n  ', ' %% x \' y\r',
+         # comments that contain what means something OUTSIDE a comment: quotes (odd and even numbers), escaped quotes, clause text
+         " % it's\n", "%'\n", " % 'a' 'b\n", "\n%'\n%'\n", " % \\'\r\n", "% p('a\n", " %% 'x', \"y\" /* z */\n", '\t%\r', ' \r% c\r\n\t']
 
 def render(tokens, rng, style):
     """style 0: single spaces; 1: as tight as possible; 2: random separators and comments."""
@@ -126,7 +132,36 @@ def rnd_quoted(rng):
         body += c
     return "'" + body.replace("'", "\\'") + "'"
 
+# Quoted atoms that run over several lines.  Inside the quotes EVERYTHING is atom text; the lines of these atoms start with what
+# means something outside an atom (comment openers of this and other languages, separators, brackets, clause text, quotes) and
+# end with every kind of line end, so that a text-level treatment of the source (before or beside the lexer) shows.
+_Q_FIRST = ['', '', 'see', 'a', ' ', '% c', "\\'", 'p(a).', 'x ', 'e\u0301', '\ufeff', '\t']
+_Q_STARTS = ['%', '%', '%', '% ', '%%', '%', '%', '% ', '%', '% ', "%\\'", '/*', '*/', '//', '#', '--', ':-', '.', ',', ')', '(', ';', '->', '|', ']', '[', "\\'", '"',
+             '\\+', '!', '=', 'p(a).', ':- q.', 'X', 'a', '0', '']
+_Q_RESTS = ['', '', '', ' chapter 2', ' c, d. )', 'more', ' p(a).', " it\\'s", ' /* c */', ' % x', ' .', "\\'", ' :- q', '.', ')',
+            ' \xa0', 'e\u0301', '"', ' ', '\t', ',']
+_Q_INDENT = ['', '', '', ' ', '  ', '\t', ' \t']
+_Q_BREAKS = ['\n', '\n', '\n', '\n', '\r\n', '\r', '\n\n', ' \n', '\t\n', '\n\r', '\x0c\n', '\\\n']
+_MULTILINE_DEFAULT = 0.04
+_BIAS = {'multiline': _MULTILINE_DEFAULT}
+
+def multiline_quoted(rng):
+    """a quoted atom of 2..4 lines; no backslash stands in front of the closing quote or of another backslash, so the token ends
+    at its first quote that is not preceded by a backslash"""
+    body = rng.choice(_Q_FIRST)
+    for _ in range(rng.choice([1, 1, 1, 2, 3])):
+        body += rng.choice(_Q_BREAKS) + rng.choice(_Q_INDENT) + rng.choice(_Q_STARTS) + rng.choice(_Q_RESTS)
+    return "'" + body + "'"
+
+def multiline_value(rng):
+    """the same as the atom's value (for programs printed from ASTs)"""
+    while True:
+        v = multiline_quoted(rng)[1:-1].replace("\\'", "'")
+        if '\\' not in v:       # a bare backslash cannot be printed by ast_io.atom_text
+            return v
+
 def g_atom(rng, callable_bias=False):
+    if rng.random() < _BIAS['multiline']: return multiline_quoted(rng)
     r = rng.random()
     if r < 0.7: return rng.choice(ATOMS)
     if r < 0.80: return rng.choice(STRINGS)
@@ -202,6 +237,26 @@ def g_cord(rng):
         return head + ['.']
     return head + [':-'] + g_pe(rng, rng.choice([0, 1, 2, 3])) + ['.']
 
+def g_text_clause(rng):
+    """a clause of the kind that stores text: flat goals whose arguments are mostly quoted atoms running over several lines"""
+    def goal():
+        out = [rng.choice(ATOMS), '(']
+        for i in range(rng.choice([1, 2, 2, 3, 4])):
+            if i: out.append(',')
+            r = rng.random()
+            if r < 0.7: out.append(multiline_quoted(rng))
+            elif r < 0.8: out.append(rng.choice(STRINGS))
+            elif r < 0.9: out += ['[', multiline_quoted(rng), '|', rng.choice(VARIABLES), ']']
+            else: out.append(rng.choice(VARIABLES + ATOMS + NUMERALS))
+        return out + [')']
+    out = goal()
+    if rng.random() < 0.3:
+        out.append(':-')
+        for i in range(rng.choice([1, 2])):
+            if i: out.append(rng.choice([',', ';', '->']))
+            out += goal()
+    return out + ['.']
+
 def g_program_tokens(rng, nmax=5):
     clauses = [g_cord(rng) for _ in range(rng.choice(list(range(1, nmax + 1))))]
     return clauses
@@ -212,7 +267,9 @@ def a_term(rng, depth):
     r = rng.random()
     if depth <= 0 or r < 0.25:
         r = rng.random()
-        if r < 0.4: return ['atom', rng.choice(ATOMS + ["it's", 'hello world', '', 'A', '[]', 'é', 'two\nlines'])]
+        if r < 0.4:
+            if rng.random() < 3 * _BIAS['multiline']: return ['atom', multiline_value(rng)]
+            return ['atom', rng.choice(ATOMS + ["it's", 'hello world', '', 'A', '[]', 'é', 'two\nlines'])]
         if r < 0.55: return ['num', rng.choice(NUMERALS)]
         return ['var', rng.choice(['X', 'Y', 'Z', '_G1', 'Abc'])]
     if r < 0.55:
@@ -264,19 +321,72 @@ FOREIGN = ['\xa0', '\u2028', '\x0b', '\x85', '\ufeff', '\u3000', '\u200b', 'É',
 INSERTABLE = ['.', ':-', '\\+', ',', '->', ';', '(', ')', '/', '|', 'true', 'fail', '!', 'X', '_', 'a', 'foo', '7', '-', '=',
               "'s'", '[', ']', ',', ',', ')', '.', '(']
 
-def corruptions(rng, clauses, n):
+_KINDS = ['delete', 'insert', 'duplicate', 'swap', 'truncate-token', 'truncate-char', 'char-delete',
+          'char-replace', 'foreign', 'foreign', 'unterminated-end', 'unterminated-boundary', 'trailing',
+          'trailing', 'leading', 'leading', 'comment-eof', 'no-final-dot', 'double-sep', 'slash-star',
+          'insert', 'delete', 'near-quoted', 'quote-lost', 'inside-quoted']
+_QUOTED_KINDS = ['near-quoted', 'near-quoted', 'near-quoted', 'quote-lost', 'inside-quoted', 'inside-quoted']
+_BREAK = re.compile(r'\r\n|\n\r|\r|\n')
+
+def _pick_quoted(rng, t):
+    """index of a quoted atom among the token texts, preferably one that spans lines"""
+    q = [i for i, x in enumerate(t) if len(x) >= 2 and x[0] == "'"]
+    ml = [i for i in q if '\n' in t[i] or '\r' in t[i]]
+    if ml and (rng.random() < 0.8 or not q): return rng.choice(ml)
+    return rng.choice(q) if q else None
+
+def _edit_inside_quoted(rng, tok):
+    """one edit at a line boundary inside a quoted atom (the text of the token is returned)"""
+    brs = [m for m in _BREAK.finditer(tok)]
+    if not brs:
+        i = rng.randrange(1, len(tok))
+        return tok[:i] + rng.choice(["'", '\n', "\n'", '\n%', "\n% '", "'\n"]) + tok[i:]
+    m = rng.choice(brs)
+    a, b = m.start(), m.end()
+    nxt = _BREAK.search(tok, b)
+    eol = nxt.start() if nxt else len(tok) - 1        # end of the line that starts at b (the closing quote is not part of it)
+    op = rng.choice(['quote-at-line-start', 'quote-at-line-end', 'join-lines', 'drop-line', 'comment-line', 'quote-before-break',
+                     'separator-at-line-start', 'dup-line'])
+    if op == 'quote-at-line-start': return tok[:b] + "'" + tok[b:]
+    if op == 'quote-at-line-end': return tok[:eol] + "'" + tok[eol:]
+    if op == 'join-lines': return tok[:a] + rng.choice(['', ' ']) + tok[b:]
+    if op == 'drop-line': return tok[:b] + tok[eol:]
+    if op == 'comment-line': return tok[:b] + rng.choice(['%', '% ', ' %']) + tok[b:]
+    if op == 'quote-before-break': return tok[:a] + "'" + tok[a:]
+    if op == 'separator-at-line-start': return tok[:b] + rng.choice(["',", "')", "').", "' ,", "', '"]) + tok[b:]
+    return tok[:eol] + tok[a:eol] + tok[eol:]
+
+def corruptions(rng, clauses, n, kinds=_KINDS):
     """n corrupted variants of a program given as a list of clauses (lists of token texts)."""
     toks = [t for c in clauses for t in c]
     out = []
     base = ' '.join(toks)
     for _ in range(n):
-        k = rng.choice(['delete', 'insert', 'duplicate', 'swap', 'truncate-token', 'truncate-char', 'char-delete',
-                        'char-replace', 'foreign', 'foreign', 'unterminated-end', 'unterminated-boundary', 'trailing',
-                        'trailing', 'leading', 'leading', 'comment-eof', 'no-final-dot', 'double-sep', 'slash-star',
-                        'insert', 'delete'])
+        k = rng.choice(kinds)
         t = list(toks)
         src = None
-        if k == 'delete' and len(t) > 1:
+        qi = _pick_quoted(rng, t) if k in ('near-quoted', 'quote-lost', 'inside-quoted') else None
+        if k in ('near-quoted', 'quote-lost', 'inside-quoted') and qi is None:
+            k = rng.choice(['insert', 'delete', 'duplicate', 'foreign'])
+        if k == 'near-quoted':
+            # the same single edits, applied directly before / after a quoted atom (on the line of its opening / closing quote)
+            op = rng.choice(['insert-after', 'insert-after', 'insert-before', 'dup-next', 'dup-prev', 'del-next', 'del-prev', 'dup-self',
+                             'foreign-after', 'foreign-before', 'swap-next'])
+            if op == 'insert-after': t.insert(qi + 1, rng.choice(INSERTABLE))
+            elif op == 'insert-before': t.insert(qi, rng.choice(INSERTABLE))
+            elif op == 'dup-next' and qi + 1 < len(t): t.insert(qi + 1, t[qi + 1])
+            elif op == 'dup-prev' and qi > 0: t.insert(qi, t[qi - 1])
+            elif op == 'del-next' and qi + 1 < len(t): del t[qi + 1]
+            elif op == 'del-prev' and qi > 0: del t[qi - 1]
+            elif op == 'swap-next' and qi + 1 < len(t): t[qi], t[qi + 1] = t[qi + 1], t[qi]
+            elif op == 'foreign-after': t[qi] = t[qi] + rng.choice(['', ' ']) + rng.choice(FOREIGN)
+            elif op == 'foreign-before': t[qi] = rng.choice(FOREIGN) + rng.choice(['', ' ']) + t[qi]
+            else: t.insert(qi, t[qi])
+        elif k == 'quote-lost':
+            t[qi] = t[qi][1:] if rng.random() < 0.5 else t[qi][:-1]
+        elif k == 'inside-quoted':
+            t[qi] = _edit_inside_quoted(rng, t[qi])
+        elif k == 'delete' and len(t) > 1:
             del t[rng.randrange(len(t))]
         elif k == 'insert':
             t.insert(rng.randrange(len(t) + 1), rng.choice(INSERTABLE))
@@ -315,12 +425,15 @@ def corruptions(rng, clauses, n):
                 i = rng.choice(idx); t.insert(i, t[i])
         elif k == 'slash-star':
             i = rng.randrange(len(t) + 1); t.insert(i, '/* c */')
+        noop = src is None and t == toks
         if src is None:
-            src = ' '.join(t)
+            # token-level edits: mostly one line with single blanks (everything that follows a quoted atom's closing quote is
+            # then on the line of that quote), otherwise the random layout with line breaks and comments
+            src = ' '.join(t) if rng.random() < 0.7 else render(t, rng, 2)
         case = {'src': src, 'kind': k, 'base_clauses': len(clauses)}
         sure = k in ('trailing', 'unterminated-end', 'comment-eof', 'no-final-dot') or \
             (k == 'leading' and not src.startswith(('garbage', '=', '(')))   # `garbage ((c)) :- ...` can be a clause
-        if src != base and (sure or tokenize(src) is None):
+        if src != base and not noop and (sure or tokenize(src) is None):
             case['must_reject'] = True       # not a sentence by construction (or not even lexable)
         out.append(case)
     return out
@@ -331,6 +444,7 @@ def gen(rng, tier):
     n = 260 if tier == 'quick' else 4000
     cases = []
     for i in range(n):
+        kinds = _KINDS
         if i % 3 == 2:
             prog = a_program(rng)
             try:
@@ -345,11 +459,23 @@ def gen(rng, tier):
             cases.append({'src': text, 'kind': 'valid-ast', 'expect_ast': group(expect), 'base_clauses': len(prog)})
             cases.append({'src': render([t for c in tl for t in c], rng, 2), 'kind': 'valid-ast-spaced', 'expect_ast': group(expect), 'base_clauses': len(prog)})
             clauses = tl
+        elif i % 6 == 1:
+            # programs in which many atoms are quoted atoms that span lines, and corruptions placed at / inside those atoms
+            _BIAS['multiline'] = 0.4
+            try:
+                clauses = g_program_tokens(rng, 3)
+            finally:
+                _BIAS['multiline'] = _MULTILINE_DEFAULT
+            if i % 12 == 1:
+                clauses = [g_text_clause(rng) if rng.random() < 0.7 else c for c in clauses]
+            toks = [t for c in clauses for t in c]
+            cases.append({'src': render(toks, rng, rng.choice([0, 1, 2, 2])), 'kind': 'grammar', 'base_clauses': len(clauses)})
+            kinds = _QUOTED_KINDS * 3 + _KINDS
         else:
             clauses = g_program_tokens(rng)
             toks = [t for c in clauses for t in c]
             cases.append({'src': render(toks, rng, rng.choice([0, 1, 2, 2])), 'kind': 'grammar', 'base_clauses': len(clauses)})
-        cases.extend(corruptions(rng, clauses, 3 if tier == 'quick' else 4))
+        cases.extend(corruptions(rng, clauses, 3 if tier == 'quick' else 4, kinds))
     return cases
 
 def number_anon(prog):
@@ -383,6 +509,12 @@ def builtin_corpus():
         "p(1(a)) :- fail.", "p :- fail, (1(a) -> b ; c).", "p :- a, fail, 1(b).", "p :- !, fail, 1(b).", "p :- (a, fail), 1(b).",
         "p :- fail -> 1(a) ; b.", "p :- (fail -> a ; b), 1(a).", "p :- fail, 1.", "p :- fail, X.", "p :- fail, q(1(a/2)).", "p :- fail, 007(_).",
         "p :- fail, q(_, 1(_)). r(_).", "p :- true, 1(a).", "p :- fail, fail, 1(a).", "p :- (fail, a ; fail, 2(b)), c.", "p(0). p(00).", "p(1a).", "p(1A).", "p(1_).", "p(a1B_2).", "p(_1).", "p(__).", "p(_a_).",
+        # quoted atoms that span lines: inside the quotes a % at the start of a line, a full stop, clause text are atom text, and
+        # what follows the closing quote on the same line counts
+        "p('a\n% b').", "p('a\n% b', 'c\nd').", "p('a\n% b', , 'c\nd').", "p('a\n% b') , 'c\nd').", "p('a\n% b', c\nd').",
+        "p('a\n% b' # , 'c\nd').", "p('a\n%'). q('b').", "p('a\n%' q('b\n').", "p('a\n  % b') :- q. % c\n", "p('\n%\n').", "p('a\r% b').",
+        "p('a\r\n% b\r\n').", "p('a\n% b\n', 'c').\n% d\nq.", "p('a\n:- b.\n').", "p('a\n').\n%').\n", "p('a\n% \\' b').", "p('a\n% \\').  q('b').",
+        "p('a \n').", "p('a\t\n b').", "% 'a\np('b\n% c').", "% it's\np. % 'x\nq('\n% y').",
     ]
     return [{'src': s, 'kind': 'corpus', 'base_clauses': 1} for s in srcs]
 
@@ -419,10 +551,33 @@ def impl(case):
         raise
     except Exception as e:
         out['tokens'] = _exc(e)
+    # what the pipeline behind compile_prolog_from_string really works on is recorded while it runs: the token stream its parser
+    # reads and the AST it hands to the code generator (the classes are looked up in the compiler module's globals at call time)
+    seen = {}
+    saved = {}
+    try:
+        class _Stream(C.CommonTokenStream):
+            def __init__(self, *a, **k):
+                super().__init__(*a, **k); seen['stream'] = self
+        class _Compiler(C.YPPrologCompiler):
+            def compile_program(self, program):
+                try:        # read before the code generator touches it
+                    seen['ast'] = [[k[0], k[1], [ast_io.read_clause(c) for c in cl]] for k, cl in program.items()]
+                except Exception as e:
+                    seen['ast_error'] = type(e).__name__
+                return super().compile_program(program)
+        saved = {'CommonTokenStream': C.CommonTokenStream, 'YPPrologCompiler': C.YPPrologCompiler}
+        C.CommonTokenStream, C.YPPrologCompiler = _Stream, _Compiler
+    except Exception:
+        saved = {}
     try:
         code = C.compile_prolog_from_string(src)
         out['compile'] = ['ok', sorted(set(re.findall(r'^def (\w+)\(', code, re.M))), code]
         out['verdict'] = 'text'
+        if 'stream' in seen:
+            out['pipe_tokens'] = [[t.type, t.text] for t in seen['stream'].tokens if t.type != antlr4.Token.EOF]
+        if 'ast' in seen:
+            out['pipe_ast'] = seen['ast']
     except RecursionError:
         raise
     except Exception as e:
@@ -430,6 +585,9 @@ def impl(case):
         cls, msg = type(e).__name__, str(e)
         out['verdict'] = ('too-large' if cls == 'CompilerError' and 'program too large for Python' in msg else
                           'reject-numeral' if cls == 'ValueError' and 'integer string conversion' in msg else 'reject-front')
+    finally:
+        for k, v in saved.items():
+            setattr(C, k, v)
     # the other public entry points of the same pipeline: compile_prolog_from_file and the command line (yldpc)
     try:
         import os, click.testing
@@ -457,6 +615,11 @@ def impl(case):
         raise
     except Exception as e:
         out['ast'] = _exc(e)
+    # keep the observation small: what the pipeline worked on is stored only where it differs from the lexer / front end run alone
+    if out.get('pipe_tokens') is not None and out['tokens'] == ['ok', out['pipe_tokens']]:
+        out['pipe_tokens'] = 'same'
+    if out.get('pipe_ast') is not None and out['ast'] == ['ok', out['pipe_ast']]:
+        out['pipe_ast'] = 'same'
     return out
 
 def allow_harness_raise(case, io):
@@ -545,6 +708,12 @@ def oracle(case, io):
         want = sorted({'%s_%d' % (g[0], g[1]) for g in io['ast'][1]})
         if io['compile'][1] != want:
             return 'compiled code defines %r but the text has clauses for %r' % (io['compile'][1], want)
+        # the accepted text is compiled as it stands: the tokens the pipeline's parser read are the tokens of the text, the
+        # program handed to the code generator is the front end's AST of the text
+        if io.get('pipe_tokens', 'same') != 'same':
+            return 'compile_prolog_from_string returns code, but its parser read a token stream that is not the token stream of the text'
+        if io.get('pipe_ast', 'same') != 'same':
+            return 'compile_prolog_from_string returns code for a program that is not the AST of the text (clauses omitted or altered)'
     # one pipeline behind every entry point: same verdict, same text; a refused text leaves no compiled output at all
     if io.get('file') is not None:
         if _accepted(io):
